@@ -423,6 +423,10 @@ def run(check, ctx):
     # the native scrypt ROMix and its Salsa20/8 core against RFC 7914
     from . import c_salsa
     c_salsa.salsa_tables(check, ctx, groups=("scrypt",))
+    # the hashes under the KDFs (PBKDF1/2, HKDF): padding for every message value and digests on the message table
+    from . import c_md, c_digest
+    c_md.md_tables(check, ctx, groups=("pad",))
+    c_digest.digest_tables(check, ctx, groups=("md",))
     check.floor("K-sym", 6)
     check.undecided.append("derived bytes of the EKSBlowfish core (native); scrypt ROMix outside the (r, N) table; "
                            "the hash and MAC functions themselves (C03)")
